@@ -17,8 +17,8 @@ sys.path.insert(0, os.path.join(fw.VERIF, 'harness', 'oracles'))
 import scgf as oracle  # noqa: E402  (independent parser; used by search() and to word violation reports)
 
 TITLE = 'Emitted definitions are well-formed, topologically ordered SCgf v2'
-TRANSLATED = []
-MODEL_TARGETS = ['model/Scgf.vo']
+TRANSLATED = ['Gen_scgftables', 'Gen_opcodes']
+MODEL_TARGETS = ['model/Scgf.vo', 'model/GraphScgf.vo']
 ALLOWED_AXIOMS = []
 TRUSTED = [
     'SCgf version-2 layout transcribed by hand from the SuperCollider "Synth Definition File Format" description (parser in coq/model/Scgf.v; independent Python transcription in harness/oracles/scgf.py)',
@@ -366,10 +366,52 @@ def make_cases(ctx):
         p['name'] = nm
         add('name', p, expect='model', base=True)
     # parameter names: long and non-ASCII identifiers
-    for pn, exp in [('p' * 255, 'ok'), ('q' * 256, 'raise'), ('fréq', 'raise'), ('µ', 'raise')]:
+    for pn, exp in [('p' * 255, 'ok'), ('q' * 256, 'raise'), ('fréq', 'raise'), ('µ', 'raise'), ('r' * 127, 'ok'), ('s' * 128, 'ok'),
+                    ('t' * 254, 'ok')]:
         p = small()
         p['params'] = [{'name': pn, 'default': 1, 'annot': None}, {'name': 'gate', 'default': 1, 'annot': None}]
         add('pname', p, expect=exp)
+
+    # unit (class) names of length 127, 128, 255 (and 256: must raise) through both readers
+    for n, exp in [(127, 'ok'), (128, 'ok'), (255, 'ok'), (256, 'raise'), (1, 'ok')]:
+        uname = 'U' + ''.join(rng.choice('abcdefghijklmnopqrstuvwxyz0123456789_') for _ in range(n - 1))
+        p = {'name': 'un%d' % n, 'params': [{'name': 'freq', 'default': 440, 'annot': None}], 'variants': None, 'base': False,
+             'body': [{'dyncls': uname, 'basecls': rng.choice(['SinOsc', 'Saw', 'LFNoise0']), 'meth': 'ar', 'args': [{'p': 0, 'pick': 0}]},
+                      {'cls': 'Out', 'meth': 'ar', 'args': [{'k': 0}, {'v': 0, 'single': 1}]}]}
+        add('uname', p, expect=exp)
+
+    # several control units: ir / tr / ar groups and more than 16 lagged kr parameters (LagControl is
+    # built in clumps of 16); In/Out units take their bus from parameters living in any of them
+    for _ in range(ctx.n(6, 40)):
+        params = []
+        for r_, pre in (('ir', 'i'), ('tr', 't'), ('ar', 'a')):
+            for j in range(rng.choice([0, 1, 2, 3])):
+                d = rng.choice(CONSTS) if rng.random() < 0.7 else [rng.choice(CONSTS) for _ in range(rng.randint(2, 3))]
+                params.append({'name': '%s%d' % (pre, j), 'default': d, 'annot': r_})
+        nk = rng.choice([1, 5, 16, 17, 18, 24, 33, 40])
+        lagged = rng.random() < 0.8
+        for j in range(nk):
+            d = rng.choice(CONSTS) if rng.random() < 0.8 else [rng.choice(CONSTS) for _ in range(rng.randint(2, 3))]
+            q = {'name': 'k%d' % j, 'default': d, 'annot': None}
+            if lagged and rng.random() < 0.9:
+                q['lag'] = rng.choice([0.1, 0.5, 2])
+            params.append(q)
+        if rng.random() < 0.5:
+            params[rng.randrange(len(params))]['name'] = 'gate'
+        rng.shuffle(params)
+        body = [{'cls': 'SinOsc', 'meth': 'ar', 'args': [{'p': rng.randrange(len(params)), 'pick': 0}, {'k': 0}]}]
+        for _u in range(rng.randint(2, 6)):
+            busarg = {'p': rng.randrange(len(params)), 'pick': rng.randrange(3), 'need': 'raw'}
+            if rng.random() < 0.4:
+                body.append({'cls': rng.choice(['In', 'In', 'InFeedback', 'LagIn', 'InTrig']), 'meth': None, 'args': [busarg, {'k': rng.choice([1, 2])}]})
+                body[-1]['meth'] = {'In': rng.choice(['ar', 'kr']), 'InFeedback': 'ar', 'LagIn': 'kr', 'InTrig': 'kr'}[body[-1]['cls']]
+                if body[-1]['cls'] == 'LagIn':
+                    body[-1]['args'].append({'k': 0.1})
+            else:
+                cls_ = rng.choice(['Out', 'Out', 'ReplaceOut', 'OffsetOut', 'XOut'])
+                args = [busarg] + ([{'k': 0.5}] if cls_ == 'XOut' else []) + [{'v': 0, 'single': 1}]
+                body.append({'cls': cls_, 'meth': 'ar', 'args': args})
+        add('multictl', {'name': ascii_name(rng, 6), 'params': params, 'variants': None, 'body': body, 'base': False}, expect='ok')
 
     # (c) variants: valid boundary (full name exactly 32) and invalid ones (F19): the valid prefix is written,
     # the count must be the number of variants that follow
@@ -553,6 +595,7 @@ STAGE = {1: 'the real bytes do not parse completely as one SCgf-2 definition (mo
          4: 'a width-first unit does not precede a unit created after it (or the creation list does not match the units)',
          5: 'the library\'s SynthDesc reader and the model\'s read_desc disagree',
          6: 'the variants section differs from the valid prefix of the declared variants',
+         8: 'SynthDesc.def_name_from_bytes and the model disagree on the definition name',
          7: 'the description read back from the bytes does not recover the declared parameters (name / slot / rate / default values / gate flag)'}
 
 SIGS = {'variant': 'C02:variant-count-without-variants', 'seq': 'C02:sequence-input-bytes'}
@@ -602,9 +645,26 @@ def correspond(ctx):
                 c.count('has-io-desc')
             if o['desc_exc']:
                 c.count('libreader-exc')
+            try:
+                pd = oracle.parse(b)
+                ctl_units = [u for u in pd['units'] if u['cls'] in oracle.CONTROL_CLASSES]
+                if len(ctl_units) >= 2:
+                    c.count('control-units>=2')
+                if len(ctl_units) >= 4:
+                    c.count('control-units>=4')
+                if o['desc'] and len(ctl_units) >= 2:
+                    first = len(ctl_units[0]['outs'])
+                    slot = {n: i for n, i, _r, _w in o.get('decl', [])}
+                    for io in o['desc']['ins'] + o['desc']['outs']:
+                        if io[2][0] == 'n' and slot.get(io[2][1], 0) >= first:
+                            c.count('bus-named-by-later-control-unit')
+                            break
+            except oracle.FormatError:
+                pass
             decl = clist(['(%s, %s, %s, %s)' % (cb(n), cz(i), cz(r), clist(ws, cz)) for n, i, r, ws in o.get('decl', [])])
-            items.append('(check_case %s %s %s %s %s %s)' % (cb(b), c_order(o['order']), c_desc(o['desc']),
-                                                             c_names3(o['names3']), c_vsrc(k.get('variants')), decl))
+            items.append('(check_case %s %s %s %s %s %s %s)' % (cb(b), c_order(o['order']), c_desc(o['desc']),
+                                                                c_names3(o['names3']), c_vsrc(k.get('variants')), decl,
+                                                                copt(o.get('defname'), cb)))
             item_case.append(idx)
             if o['nunits'] >= 2:
                 c.nontriv((k['name'], o['bytes'][:4000]))
